@@ -783,4 +783,5 @@ func TestC13(t *testing.T) {
 	defer s.End()
 	hx.Run(s, c13Docs, s.N(4000, 40000))
 	hx.Run(s, c13Reqs, s.N(5000, 50000))
+	hx.Each(s, c13Odd, true, c13OddCases)
 }
